@@ -449,6 +449,34 @@ def generate(api):
         for (fn, kind), c in sorted(cnt.items()):
             sites.append((relp, fn, kind, c))
 
+    # ---------------------------------------------------------------- switch and textPath (final pass)
+    swb = squash(fn_body(rd('crates/usvg/src/parser/switch.rs'), 'convert') or '')
+    cvb = fn_body(rd('crates/usvg/src/parser/converter.rs'), 'convert_element') or ''
+    setg3('G_SWITCH_AS_GROUP',
+          swb.startswith("letchild=node.children().find(|n|is_condition_passed(*n,state.opt))?;"
+                         "ifletSome(g)=converter::convert_group(node,state,false,cache,parent,&|cache,g|{converter::convert_element(child,state,cache,g);})"
+                         "{parent.children.push(Node::Group(Box::new(g)));}")
+          and bool(re.search(r"if\s+tag_name\s*==\s*EId\s*::\s*Switch\s*\{\s*super\s*::\s*switch\s*::\s*convert\s*\(\s*node\s*,\s*state\s*,\s*cache\s*,\s*parent\s*\)\s*;\s*return\s*;", cvb))
+          and bool(re.search(r"!\s*tag_name\s*\.\s*is_graphic\s*\(\s*\)\s*&&\s*!\s*matches\s*!\s*\(\s*tag_name\s*,\s*EId\s*::\s*G\s*\|\s*EId\s*::\s*Switch\s*\|\s*EId\s*::\s*Svg\s*\)", cvb)),
+          "switch::convert converts ONE child through convert_group / convert_element with the caller's state (a switch is a container "
+          "like g / svg for the reference graph: element filter `G | Switch | Svg` of convert_element)")
+    tfb = fn_body(rd('crates/usvg/src/parser/text.rs'), 'resolve_text_flow') or ''
+    uses = re.findall(r"\blinked_node\b[^;]*;", tfb)
+    shp = rd('crates/usvg/src/parser/shapes.rs')
+    setg3('G_TEXTPATH_NO_FOLLOW',
+          len(re.findall(r"\blinked_node\b", tfb)) == 4
+          and bool(re.search(r"let\s+linked_node\s*=\s*node\s*\.\s*attribute\s*::\s*<\s*SvgNode\s*>\s*\(\s*AId\s*::\s*Href\s*\)\s*\?\s*;\s*let\s+path\s*=\s*super\s*::\s*shapes\s*::\s*convert\s*\(\s*linked_node\s*,\s*state\s*\)\s*\?\s*;", tfb))
+          and bool(re.search(r"linked_node\s*\.\s*resolve_transform\s*\(", tfb)) and bool(re.search(r"linked_node\s*\.\s*element_id\s*\(", tfb))
+          and not re.search(r"convert_(element|group|children|clip_path_elements)\s*\(", tfb)
+          and not re.search(r"node_attribute\s*\(|attribute\s*::\s*<\s*SvgNode\s*>|href_iter\s*\(|element_by_id\s*\(|convert_(element|group|children)\s*\(", shp),
+          "textPath: the referenced element is only handed to shapes::convert (geometry), resolve_transform and element_id; shapes.rs follows no reference")
+    mkb = fn_body(msrc, 'resolve') or ''
+    setg3('G_MARKER_LIMIT',
+          bool(re.search(r"cache\s*\.\s*nested_marker_instances\s*\+=\s*1\s*;\s*if\s+cache\s*\.\s*nested_marker_instances\s*>\s*NESTED_MARKER_INSTANCES_LIMIT\s*\{[^{}]*return\s*;", mkb))
+          and bool(re.search(r"const\s+NESTED_MARKER_INSTANCES_LIMIT\s*:\s*usize\s*=\s*[\d_]+\s*;", msrc))
+          and len(re.findall(r"nested_marker_instances\s*(?:=[^=]|-=)", "".join(strip_comments(open(pp, encoding='utf-8').read()) for pp in sorted(_glob.glob(_os.path.join(base, '**', '*.rs'), recursive=True))))) == 0,
+          "marker::resolve counts the marker instances created inside other markers in the Cache and returns once the limit is exceeded; the counter is never reset")
+
     # ---------------------------------------------------------------- nested documents (image / feImage -> load_sub_svg)
     IMG = 'crates/usvg/src/parser/image.rs'
     isrc = rd(IMG)
